@@ -96,10 +96,35 @@ package connector
 // ---- C14: connector.Service operations are all-or-nothing w.r.t. memory ---------------
 //verif:func (*Service).Get(s, ctx, id) (inst, err)
 //verif:ensures[found] err == nil ==> has(s.connectors, id) && inst == s.connectors[id]
+//verif:ensures[listed-is-found] has(s.connectors, id) ==> err == nil
 //verif:modifies nothing
 
 //verif:func (*Service).AddProcessor(s, ctx, connectorID, processorID) (inst, err)
+//verif:ensures[appends] err == nil ==> len(cProcs(s, connectorID)) == old(len(cProcs(s, connectorID))) + 1 && cProcs(s, connectorID)[len(cProcs(s, connectorID)) - 1] == processorID && forall m in [0, old(len(cProcs(s, connectorID)))): cProcs(s, connectorID)[m] == old(cProcs(s, connectorID)[m])
+//verif:ensures[unchanged-on-error] err != nil && has(s.connectors, connectorID) ==> len(cProcs(s, connectorID)) == old(len(cProcs(s, connectorID))) && forall m in [0, len(cProcs(s, connectorID))): cProcs(s, connectorID)[m] == old(cProcs(s, connectorID)[m])
+//verif:ensures[in-place-or-fresh] err == nil ==> !isnil(cProcs(s, connectorID)) && (base(cProcs(s, connectorID)) == old(base(cProcs(s, connectorID))) || fresh(cProcs(s, connectorID)))
+//verif:ensures[fails-only-on-store-error] old(has(s.connectors, connectorID)) && err != nil ==> called("(*Store).Set")
+//verif:modifies cProcs(s, connectorID)[*], cProcs(s, connectorID), s.connectors[connectorID].UpdatedAt
 //verif:ensures[all-or-nothing] err != nil && has(s.connectors, connectorID) ==> len(s.connectors[connectorID].ProcessorIDs) == old(len(s.connectors[connectorID].ProcessorIDs)) && s.connectors[connectorID].UpdatedAt == old(s.connectors[connectorID].UpdatedAt)
 
 //verif:func (*Service).SetState(s, ctx, id, state) (inst, err)
 //verif:ensures[all-or-nothing] err != nil && has(s.connectors, id) ==> s.connectors[id].State == old(s.connectors[id].State)
+
+// ---- C15: what the provisioning import actions rely on (restated, with the same
+// ---- clause labels, as the ConnectorService interface contract in pkg/provisioning)
+//verif:def cProcs(s, id) = s.connectors[id].ProcessorIDs
+
+//verif:func (*Service).Update(s, ctx, id, plugin, data) (inst, err)
+//verif:ensures[returns-held-instance] err == nil ==> has(s.connectors, id) && inst == s.connectors[id]
+//verif:ensures[id-list-untouched] has(s.connectors, id) ==> cProcs(s, id) == old(cProcs(s, id))
+//verif:modifies s.connectors[id].Plugin, s.connectors[id].Config, s.connectors[id].UpdatedAt
+//verif:ensures[all-or-nothing] err != nil && has(s.connectors, id) ==> s.connectors[id].Plugin == old(s.connectors[id].Plugin) && s.connectors[id].UpdatedAt == old(s.connectors[id].UpdatedAt)
+
+//verif:func (*Service).RemoveProcessor(s, ctx, connectorID, processorID) (inst, err)
+//verif:ensures[removes-first-occurrence] err == nil ==> len(cProcs(s, connectorID)) == old(len(cProcs(s, connectorID))) - 1 && exists x in [0, old(len(cProcs(s, connectorID)))): old(cProcs(s, connectorID)[x]) == processorID && (forall m in [0, x): old(cProcs(s, connectorID)[m]) != processorID && cProcs(s, connectorID)[m] == old(cProcs(s, connectorID)[m])) && (forall m in [x, len(cProcs(s, connectorID))): cProcs(s, connectorID)[m] == old(cProcs(s, connectorID)[m + 1]))
+//verif:ensures[unchanged-on-error] err != nil && has(s.connectors, connectorID) ==> len(cProcs(s, connectorID)) == old(len(cProcs(s, connectorID))) && forall m in [0, len(cProcs(s, connectorID))): cProcs(s, connectorID)[m] == old(cProcs(s, connectorID)[m])
+//verif:ensures[in-place-or-fresh] has(s.connectors, connectorID) ==> base(cProcs(s, connectorID)) == old(base(cProcs(s, connectorID))) || fresh(cProcs(s, connectorID)) || isnil(cProcs(s, connectorID))
+//verif:ensures[fails-only-if-unlisted-or-store-error] old(has(s.connectors, connectorID)) && (exists x in [0, old(len(cProcs(s, connectorID)))): old(cProcs(s, connectorID)[x]) == processorID) && err != nil ==> called("(*Store).Set")
+//verif:modifies cProcs(s, connectorID)[*], cProcs(s, connectorID), s.connectors[connectorID].UpdatedAt
+//verif:loop 0 vars k=rangeindex
+//verif:loop 0 invariant k < len(conn.ProcessorIDs) && forall m in [0, k + 1): conn.ProcessorIDs[m] != processorID
